@@ -92,3 +92,80 @@ def _to_triplets(seqs: Seq(Str, "ndarray"), y_indices: Seq(SetT(Int), "ndarray")
     ensures(no_duplicates(result, lambda t: (t[0], t[1])), name="post[each pair once]")
     returns(all_cand_triplets(y_indices, seqs, lambda a, b: is_neighbor(a, b, custom_distance, max_edits, max_cust_dist),
                               lambda a, b: neighbor_value(a, b, custom_distance)), assume_only=True)
+
+
+@predicate
+def all_same_length(seqs):
+    return forall(TInt, TInt, lambda p, q: implies(0 <= p and p < len(seqs) and 0 <= q and q < len(seqs), len(seqs[p]) == len(seqs[q])))
+
+
+@contract("pyrepseq.nn._kdtree_leven", props=["C04", "C07", "C11", "C14", "C10"], scope="kdtree_leven_calls")
+def _kdtree_leven(seqs: OneOf(Seq(Str, "list", min_len=1), Seq(Str, "ndarray", min_len=1), SeriesT(Str, "int", min_len=1)),
+                  max_edits: Pos, max_returns: NoneType, n_cpu: Pos,
+                  custom_distance: OneOf(NoneType, Const("hamming"), FnT(Str, Str, returns=RealT(lo=0), symmetric=True, zero_diag=True)),
+                  max_custom_distance: OneOf(Const(float("inf")), RealT(lo=0)),
+                  output_type: OneOf(Const("triplets"), Const("coo_matrix")),
+                  compression: OneOf(IntT(lo=1), RealT(lo=1))):
+    requires(all_over(seqs, "ACDEFGHIKLMNPQRSTVWY"))
+    requires(custom_distance != "hamming" or all_same_length(seqs), name="hamming: one length bucket")
+    raises(None)
+    # the composition pre-filter loses nothing (L-enc) and the exact filter admits nothing else: the result is the
+    # default search's triplet set, whatever n_cpu and compression
+    ensures(bag_equal(triplets_of(result), neighbor_triplets(
+        seqs, seqs, lambda a, b: is_neighbor(a, b, custom_distance, max_edits, max_custom_distance),
+        lambda a, b: neighbor_value(a, b, custom_distance), True)) and is_setlike(triplets_of(result)), name="post[= default search]")
+    ensures(output_kind(result) == output_type and (output_type == "triplets" or output_shape(result) == (len(seqs), len(seqs))),
+            name="post[output form]")
+    returns(search_output(neighbor_triplets(
+        seqs, seqs, lambda a, b: is_neighbor(a, b, custom_distance, max_edits, max_custom_distance),
+        lambda a, b: neighbor_value(a, b, custom_distance), True), output_type, seqs, None), assume_only=True)
+
+
+@predicate
+def bucket_index_ok(d, seqs, upto):
+    # d maps each length to the strictly increasing list of exactly the positions (< upto) whose sequence has that length
+    return (forall(TInt, lambda L: implies(L in d, len(d[L]) >= 1 and forall(TInt, lambda q: implies(
+                0 <= q and q < len(d[L]), 0 <= d[L][q] and d[L][q] < upto and len(seqs[d[L][q]]) == L))))
+            and forall(TInt, TInt, TInt, lambda L, q, q2: implies((L in d) and 0 <= q and q < q2 and q2 < len(d[L]), d[L][q] < d[L][q2]))
+            and forall(TInt, lambda p: implies(0 <= p and p < upto,
+                                               (len(seqs[p]) in d) and exists(TInt, lambda q: 0 <= q and q < len(d[len(seqs[p])])
+                                                                              and d[len(seqs[p])][q] == p,
+                                                                              hints=[len(d[len(seqs[p])]) - 1]))))
+
+
+@contract("pyrepseq.nn._to_len_bucket", props=["C07"], scope="len_bucket")
+def _to_len_bucket(seqs: Seq(Str, "ndarray")) -> DictT(Int, Seq(Nat)):
+    raises(None)
+    loop("loop1", "inv", modifies={"ans": DictT(Int, Seq(Nat))}, inv=[bucket_index_ok(ans, seqs, _i)])
+    ensures(bucket_index_ok(result, seqs, len(seqs)), name="post[positions by length]")
+    skolem_ensures(forall(TInt, lambda p: implies(
+        0 <= p and p < len(seqs),
+        0 <= bucket_pos(result, p) and bucket_pos(result, p) < len(result[len(seqs[p])])
+        and result[len(seqs[p])][bucket_pos(result, p)] == p)))
+
+
+@contract("pyrepseq.nn.kdtree", props=["C04", "C07", "C10", "C11", "C14"], scope="search_calls_kdtree")
+def kdtree(seqs: OneOf(Seq(Str, "list"), Seq(Str, "ndarray"), SeriesT(Str, "int")), max_edits: Int, max_returns: NoneType, n_cpu: Int,
+           custom_distance: OneOf(NoneType, Const("hamming"), FnT(Str, Str, returns=RealT(lo=0), symmetric=True, zero_diag=True)),
+           max_custom_distance: OneOf(Const(float("inf")), RealT(lo=0)),
+           output_type: OneOf(Const("triplets"), Const("coo_matrix")),
+           compression: OneOf(IntT(lo=1), RealT(lo=1))):
+    requires(all_over(seqs, "ACDEFGHIKLMNPQRSTVWY"))
+    raises("AssertionError", when=not valid_search_args(seqs, max_edits, max_returns, n_cpu, custom_distance,
+                                                         max_custom_distance, output_type, None))
+    ensures(forall_in(triplets_of(result), lambda t: 0 <= t[0] and t[0] < len(seqs) and 0 <= t[1] and t[1] < len(seqs) and t[0] != t[1]
+                      and is_neighbor(seqs[t[0]], seqs[t[1]], custom_distance, max_edits, max_custom_distance)
+                      and t[2] == neighbor_value(seqs[t[0]], seqs[t[1]], custom_distance)), name="post[sound: original positions]")
+    ensures(forall(TInt, TInt, lambda q, r: implies(
+        0 <= q and q < len(seqs) and 0 <= r and r < len(seqs) and q != r
+        and is_neighbor(seqs[q], seqs[r], custom_distance, max_edits, max_custom_distance),
+        member(triplets_of(result), (q, r, neighbor_value(seqs[q], seqs[r], custom_distance)), q, r)
+        or member(triplets_of(result), (q, r, neighbor_value(seqs[q], seqs[r], custom_distance)),
+                  len(seqs[q]), bucket_pos(local("buckets"), q), bucket_pos(local("buckets"), r)))),
+            name="post[complete]")
+    ensures(no_duplicates(triplets_of(result), lambda t: (t[0], t[1])), name="post[each pair once]")
+    ensures(output_kind(result) == output_type and (output_type == "triplets" or output_shape(result) == (len(seqs), len(seqs))),
+            name="post[output form]")
+    returns(search_output(neighbor_triplets(
+        seqs, seqs, lambda a, b: is_neighbor(a, b, custom_distance, max_edits, max_custom_distance),
+        lambda a, b: neighbor_value(a, b, custom_distance), True), output_type, seqs, None), assume_only=True)
